@@ -81,6 +81,9 @@ def main():
             os.remove(os.path.join(m, loc, "zz_seeded_demo_test.go"))
         # our checks against the patched copy
         props = [prop]
+        for a in sys.argv:
+            if a.startswith("--with="):
+                props += [x for x in a[len("--with="):].split(",") if x and x != prop]
         if run_all:
             props = [c["property_id"] for c in json.load(open(os.path.join(V, "MANIFEST.json")))["checks"]]
             props = [prop] + [p for p in props if p != prop]
